@@ -2210,6 +2210,9 @@ def compare_relational(table: ic.Table) -> Tuple[List[RelResult], List[str]]:
             except (ScalaSyntax, AnalysisError) as e:
                 res.skipped = f'not translated: {e}'
                 continue
+            except (KeyError, IndexError, TypeError, AttributeError, ValueError, RecursionError) as e:  # fail closed
+                res.skipped = f'not translated (internal: {type(e).__name__}: {e})'
+                continue
             atoms = sorted({a for v, _ in sc_vals + py_vals for a in v}, key=repr)
             import itertools
             for bits in itertools.product([True, False], repeat=len(atoms)):
@@ -2742,6 +2745,7 @@ class ExprModules:
         self.funcs: Dict[str, Dict[str, pf.FuncDef]] = {}
         self.classes: Dict[str, Tuple[str, ast.ClassDef]] = {}
         self.methods_by_name: Dict[str, List[Tuple[str, str, pf.FuncDef]]] = {}
+        self._imports: Dict[str, Dict[str, str]] = {}
         for rel, m in self.mods.items():
             fs: Dict[str, pf.FuncDef] = {}
             for st in m.tree.body:
@@ -2753,6 +2757,11 @@ class ExprModules:
                         if isinstance(f, ast.FunctionDef):
                             self.methods_by_name.setdefault(f.name, []).append((rel, st.name, f))
             self.funcs[rel] = fs
+
+    def imports(self, rel: str) -> Dict[str, str]:
+        if rel not in self._imports:
+            self._imports[rel] = self.mods[rel].imports()
+        return self._imports[rel]
 
     def collection_kind(self, cname: Optional[str]) -> Optional[str]:
         """'array' | 'set' | 'stream' when construct_expr's table `typ_to_expr` maps that type constructor to a class in the MRO."""
@@ -3377,6 +3386,16 @@ class Flow:
             return [self.opaque_call(e, f if h == 'obj' else None, args, kwargs, fam_star, extra | self.refs_of(f))]
         return [self.opaque_call(e, None, args, kwargs, fam_star, extra)]
 
+    def builds_variables(self, fn: pf.FuncDef) -> bool:
+        """Does the helper (lexically) create bound variables or binder nodes?  Only such imported helpers are followed."""
+        for n in ast.walk(fn):
+            if isinstance(n, ast.Call):
+                d = pf.dotted(n.func) or ''
+                last = d.split('.')[-1]
+                if last in ('construct_variable', 'Ref') or last in self.binders:
+                    return True
+        return False
+
     def interpretable(self, fn: pf.FuncDef) -> bool:
         for d in fn.decorator_list:
             n = pf.dotted(d.func) if isinstance(d, ast.Call) else pf.dotted(d)
@@ -3537,9 +3556,9 @@ class Flow:
             if self.interpretable(fn):
                 return self.invoke(fn, {}, None, None, self.rel, args, kwargs, fam_star, e, extra)
         # a helper imported from another module of the expression front end (unique definition, imported under its own name)
-        if len(parts) == 1 and last in self.mods.mods[self.rel].imports():
+        if len(parts) == 1 and last in self.mods.imports(self.rel):
             defs = [(r, fs[last]) for r, fs in self.mods.funcs.items() if last in fs]
-            if len(defs) == 1 and self.interpretable(defs[0][1]) and last not in ('to_expr', 'cast_expr', 'unify_all', 'construct_expr', 'construct_variable'):
+            if len(defs) == 1 and self.interpretable(defs[0][1]) and self.builds_variables(defs[0][1]):
                 return self.invoke(defs[0][1], {}, None, None, defs[0][0], args, kwargs, fam_star, e, extra)
         # ClassName.method(obj, ...)  /  ClassName.static_helper(...)
         if len(parts) == 2 and parts[0] in self.mods.classes:
@@ -3829,6 +3848,10 @@ class Flow:
             return str(ex)
         except RecursionError:
             return 'recursion limit'
+        except AnalysisError as ex:
+            return str(ex)
+        except (KeyError, IndexError, TypeError, AttributeError, ValueError) as ex:  # fail closed: an unforeseen shape is a decline, never a verdict
+            return f'internal: {type(ex).__name__}: {ex}'
         return None
 
 
@@ -3845,13 +3868,38 @@ def binder_roots(mods: ExprModules, binders: Dict[str, List[BinderEntry]]) -> Li
                     return True
         return False
 
+    emit_funcs: Dict[str, Set[str]] = {}
+    emit_methods: Set[str] = set()
     for rel, m in mods.mods.items():
         for st in m.tree.body:
             if isinstance(st, ast.FunctionDef) and mentions(st):
                 out.append((rel, st.name, st, None))
+                emit_funcs.setdefault(rel, set()).add(st.name)
             elif isinstance(st, ast.ClassDef):
                 for f in st.body:
                     if isinstance(f, ast.FunctionDef) and mentions(f):
+                        out.append((rel, f'{st.name}.{f.name}', f, st.name))
+                        emit_methods.add(f.name)
+    # one level up: a function that hands its variables / values to an emitting helper of its own class or module
+    have = {(r, q) for r, q, _, _ in out}
+
+    def calls_emitter(fn: ast.AST, rel: str) -> bool:
+        for n in ast.walk(fn):
+            if isinstance(n, ast.Call):
+                f = n.func
+                if isinstance(f, ast.Name) and f.id in emit_funcs.get(rel, set()):
+                    return True
+                if isinstance(f, ast.Attribute) and isinstance(f.value, ast.Name) and f.value.id in ('self', 'cls') and f.attr in emit_methods and f.attr.startswith('_'):
+                    return True
+        return False
+
+    for rel, m in mods.mods.items():
+        for st in m.tree.body:
+            if isinstance(st, ast.FunctionDef) and (rel, st.name) not in have and calls_emitter(st, rel):
+                out.append((rel, st.name, st, None))
+            elif isinstance(st, ast.ClassDef):
+                for f in st.body:
+                    if isinstance(f, ast.FunctionDef) and (rel, f'{st.name}.{f.name}') not in have and calls_emitter(f, rel):
                         out.append((rel, f'{st.name}.{f.name}', f, st.name))
     return out
 
@@ -3863,7 +3911,13 @@ EXTRA_BINDER_FILES = ('hail/python/hail/experimental/loop.py', 'hail/python/hail
 def analyse_binders(table: ic.Table) -> Tuple[Dict[str, SiteResult], List[str], Dict[str, Any]]:
     """Run the binder analysis over hail/python/hail/expr/** (+ the TailLoop front end).  Returns (site results, notes, stats)."""
     binders, notes = binder_table(table)
-    rels = [r for r in pf.walk_py([EXPR_DIR])] + [r for r in EXTRA_BINDER_FILES]
+    from .common import read_repo
+    rels = []
+    for r in [r for r in pf.walk_py([EXPR_DIR])] + [r for r in EXTRA_BINDER_FILES]:
+        txt = read_repo(r)
+        # only files that can contain a root or a variable-building helper are parsed
+        if 'construct_variable' in txt or 'ir.Ref(' in txt or any(f'ir.{k}' in txt for k in binders):
+            rels.append(r)
     mods = ExprModules(rels)
     flow = Flow(table, binders, mods)
     roots = binder_roots(mods, binders)
